@@ -27,9 +27,37 @@ ASSUMPTIONS = [
     "the words a conservative scan of stack+registers sees are a superset of the mutator's live pointers (supplied by the history in the model; sampled on the real runtime)",
     "gc.items / gc.rootitems behave as finite maps (hashmap.nelua is C12's model); iteration order is irrelevant to every theorem",
     "64-bit target: #@usize = 8",
+    "the pointer returned by the system allocator (or the moved/grown block) sits in a scanned register or stack slot while GC:register / GC:reregister may run a cycle (the model passes ptr :: stk; restated as C10_alloc_fresh_survives_if_scanned)",
     "modelled finalizers: observe only / gc:unregister(self) and free the block themselves (coroutine_gc) / gc_allocator:dealloc(self); finalizers that allocate or touch other blocks are outside the model (one such case is replayed as a known finding)",
     "correspondence is differential testing over generated histories, not a proof that model = code",
 ]
+
+THEOREM_CLASSES = {
+    "C10_membytes_exact": "main", "C10_mask_sound": "main", "C10_registered_once": "corollary",
+    "C10_mark_complete": "main", "C10_sweep_safe": "main", "C10_quiescent": "corollary",
+    "C10_finalize_at_most_once": "main", "C10_finalize_at_most_once_at_exit": "main",
+    "C10_finalize_exactly_once_or_unregistered_at_exit": "main", "C10_no_unbounded_garbage": "main",
+    "C10_alloc_safe": "main", "C10_alloc_fresh_survives_if_scanned": "definitional",
+    "C10_explicit_ops_frame": "corollary", "C10_realloc_grow_safe": "corollary",
+    "C10_leaf_flag_sound": "main", "C10_reachable_kept": "main", "C10_no_abort": "main",
+    "C10_repaired_code_facts": "tripwire", "C10_every_op_safe": "main",
+}
+UNPROVED = [
+    "that the real scan of stack and registers covers every live pointer of the main program and of suspended/running coroutines (setjmp, frame address, gc:setstacktop around coroutine.resume): no model; the stack words are supplied by the history; sampled by the history streams and by the coroutine stream (harness/C10/gccodriver.nelua), incl. failed resumes from main followed by cycles in deeper frames",
+    "that the pointer being (re)registered sits in a scanned slot while GC:register/GC:reregister may run a cycle: assumed by the model (ptr :: stk), restated as C10_alloc_fresh_survives_if_scanned, observed on the real collector by every history in the 'auto*' modes",
+    "a realloc that MOVES its block and triggers a cycle: no frame theorem of its own (C10_every_op_safe excludes it; C10_sweep_safe applies to the intermediate state, which satisfies the invariant)",
+    "finalizers that allocate or deallocate OTHER blocks are outside the model; GC:destroy's repeated sweep (2edb035) is therefore tied by one replayed exit witness only",
+    "the collector's check(...) calls inside GC_sweep ('gc item not found to finalize/deallocate') are modelled as no-ops: no theorem states they cannot fire (only GC:reregister's check is proved unreachable, ErrCollectorCheck)",
+    "hashmap erase-while-iterating, rehash/shrink of gc.items inside GC_sweep/GC_rehash and the validity of *GCItem pointers across them: gc.items is an abstract finite map here (hashmap.nelua is C12's model); tied by the scraped order fact RESIZE_BEFORE_STEP and the burst stream only",
+    "contents: fresh and grown bytes are zero in the model and in the harness allocator (alloc0 / zeroing hook); uninitialised contents of plain alloc/realloc are not exercised",
+    "wrappers never run against the implementation: realloc(nil), realloc(p,0), new, spanalloc, root reregister, more than one root region; --release and ASan builds only in the thorough tier",
+    "'exactly once by normal exit' is proved as: called exactly once OR dropped exactly once by an explicit gc:unregister of the program (C10_finalize_exactly_once_or_unregistered_at_exit), and only when no assert fired",
+]
+MANIFEST_ENTRY = {
+    "text": "proof, partial: theorems (over all mutator histories of an executable model of gc.nelua) for byte accounting, address-mask soundness, mark completeness and soundness, 'a reachable block keeps flags/size/finalizer/contents and is neither freed nor finalized' for every command except a moving realloc (C10_every_op_safe, C10_reachable_kept), finalizers at most once and exactly-once-or-explicitly-unregistered at exit, no garbage after one cycle, LEAF flag soundness, no collector assertion on well-formed histories; resting on differential testing only: that the model is the code (history-by-history correspondence against the real collector with an independent reachability/leak/finalizer oracle), conservative stack/register/coroutine-stack scanning, moving realloc cycles, finalizers that allocate, hashmap internals",
+    "note": "trusted: Coq kernel, regex scrapes into Gen.v, ExtrOcamlBasic extraction, coq/C10/driver.ml (feeds real addresses and conservatively retained blocks of alloc/realloc-triggered cycles to the model; explicit cycles must need none), harness/C10/*.nelua, gcc; assumes gc.items/rootitems are finite maps (lib/hashmap.nelua is property C12's model), 64-bit target, the pointer under registration is in a scanned slot",
+    "technique": "machine-checked proof in Coq over an executable model + regenerated parameters + extracted-model/implementation correspondence on generated histories with an independent oracle",
+}
 
 HARNESS = os.path.join(vlib.VERIF, "harness", ID, "gcdriver.nelua")
 M64 = (1 << 64) - 1
@@ -95,7 +123,8 @@ def gen(ctx):
     out["WORD_SIZE"] = 8
     txt = ("(* GENERATED by checks/C10.py from /repo (lib/allocators/gc.nelua, lib/allocators/allocator.nelua) - do not edit *)\n"
            "From Coq Require Import ZArith.\n")
-    for name in ("MARK", "FINALIZE", "ROOT", "LEAF", "BRANCH", "EXTERN"):
+    # BRANCH is scraped for the evidence only: gc.nelua never reads it, so the model has no use for it
+    for name in ("MARK", "FINALIZE", "ROOT", "LEAF", "EXTERN"):
         txt += "Definition %s_BIT : Z := %d%%Z.\n" % (name, out[name])
     txt += "Definition WORD_SIZE : Z := %d%%Z.\n" % out["WORD_SIZE"]
     txt += "Definition DEFAULT_PAUSE : Z := %d%%Z.\n" % out["DEFAULT_PAUSE"]
@@ -243,6 +272,13 @@ def gen_history(rng, nops, first_id=0):
             h = rng.choice(cand)
             i = handles[h]
             ops.append("F %d" % h)
+            objs[i]["alive"] = False
+            kill_refs(i)
+        elif r < 0.86:
+            # the program calls gc:unregister(ptr) itself (no finalizer call; a registered finalizer is dropped)
+            h = rng.choice(lh)
+            i = handles[h]
+            ops.append("X %d" % h)
             objs[i]["alive"] = False
             kill_refs(i)
         elif r < 0.94:
@@ -421,7 +457,7 @@ class Hist:
                 i, h, size, fl, fk = a
                 addr = res
                 objs[i] = {"addr": addr, "size": size, "words": [0] * nwords(size), "leaf": bool(fl & 1), "fk": fk,
-                           "registered": True, "dropped": False}
+                           "registered": True, "dropped": False, "extern": bool(fl & 2)}
                 self.stats["objects"] += 1
                 collects = True
                 # registered set as the real collector reports it, with the new block's address
@@ -495,6 +531,18 @@ class Hist:
                 ml.append(("rootstore %x %x 0" % (rootaddr, h), None))
                 ml.append(("dealloc %x" % rootw[h], d))
                 rootw[h] = 0
+            elif c == "X":
+                h = a[0]
+                ba = by_addr()
+                tgt = ba.get(rootw[h])
+                if tgt is None:
+                    P.append(("harness", "op %d %s: handle does not name a registered block" % (idx, op)))
+                    break
+                explicit.add(tgt)
+                objs[tgt]["dropped"] = True
+                ml.append(("rootstore %x %x 0" % (rootaddr, h), None))
+                ml.append(("unregister %x" % rootw[h], d))
+                rootw[h] = 0
             elif c == "C":
                 collects = True
                 self.stats["collect_ops"] += 1
@@ -550,6 +598,10 @@ class Hist:
             for i, o in objs.items():
                 if o["registered"] and i not in reg:
                     o["registered"] = False   # unregistered (finalizer kind 2/3 already produced X) or collected
+                    # a block the collector drops must go back to the system allocator (EXTERN blocks and
+                    # blocks the program unregistered itself are not the collector's to free)
+                    if not o.get("extern") and not o.get("dropped") and free_count.get(i, 0) == 0:
+                        P.append(("leaked", "op %d %s: block %d is no longer registered but was never given back to the system allocator" % (idx, op, i)))
             # ---- oracle: reachable => registered, canary intact
             r_after = reach()
             self.stats["reach_checks"] += len(r_after)
@@ -561,6 +613,16 @@ class Hist:
                     P.append(("canary", "op %d %s: object %d is reachable but its canary word changed" % (idx, op, i)))
                 elif reg[i][0] != objs[i]["size"]:
                     P.append(("size", "op %d %s: object %d registered with size %d, expected %d" % (idx, op, i, reg[i][0], objs[i]["size"])))
+            # ---- oracle: garbage does not survive an explicit cycle.  The mutator's handles live in the
+            # static root table only and the stack below the driver loop is scrubbed before an explicit
+            # collect/step, so the roots are exact there: whatever is still registered after the cycle
+            # must be reachable (conservative retention is tolerated only for cycles run from inside
+            # alloc/realloc, and must be gone at the next explicit cycle)
+            if c == "C" or (c == "T" and res == 1):
+                kept = sorted(i for i in reg if i in objs and i not in r_after)
+                if kept:
+                    self.stats["retained_after_explicit_cycle"] = self.stats.get("retained_after_explicit_cycle", 0) + len(kept)
+                    P.append(("garbage-retained", "op %d %s: blocks %s are unreachable from the root table and still registered after an explicit collection cycle" % (idx, op, kept[:8])))
             # ---- oracle: tracked bytes exact
             mem = int(d["mem"])
             if mem != int(d["sum"]) or int(d["n"]) != len(reg) or mem != sum(s for s, _ in reg.values()):
@@ -602,6 +664,10 @@ class Hist:
                 if fin_count.get(i, 0) != 1:
                     P.append(("finalize-exactly-once", "block %d was registered with a finalizer by a finalizer running inside GC:destroy; its finalizer ran %d times by normal exit and the block was never freed" % (i, fin_count.get(i, 0))))
             for i, o in objs.items():
+                if o.get("dropped"):
+                    if fin_count.get(i, 0) != 0:
+                        P.append(("finalized-after-unregister", "object %d was taken out of the collector by gc:unregister, yet its finalizer ran %d times" % (i, fin_count.get(i, 0))))
+                    continue
                 if o["fk"] != 0 and fin_count.get(i, 0) != 1:
                     P.append(("finalize-exactly-once", "object %d has a finalizer which ran %d times by normal exit" % (i, fin_count.get(i, 0))))
         elif not P and (self.rc != 0 or not self.exit_seen):
@@ -640,6 +706,8 @@ def compare_model(h, mout_lines):
             break
         if kv.get("xs", "0") != "0":
             h.stats["extras"] += int(kv["xs"])
+            if line.startswith(("collect", "step")):
+                mism.append("explicit cycle '%s': the implementation kept %s block(s) that the model frees (roots are exact there)" % (line[:40], kv["xs"]))
         if d is None:
             continue
         mf, mx = sorted(acc_f), sorted(acc_x)
@@ -1042,11 +1110,6 @@ def correspond(ctx):
         "distribution": {"histories": len(hists), "builds": [b[0] for b in builds], **dist, **total},
         "oracle_failures": n_oracle,
         "model_mismatches": n_mismatch,
-        "unproved": [
-            "safety of the cycle that GC:reregister can trigger from inside a realloc that MOVES the block is not a theorem of its own (C10_sweep_safe applies to the intermediate state, which satisfies the invariant; C10_alloc_safe and C10_realloc_grow_safe cover allocation and in-place growth)",
-            "finalizers that allocate or deallocate OTHER blocks (outside the model)",
-            "that the real stack/register scan covers every live pointer (setjmp, frame address, coroutine stack switch): runtime, sampled by the history and coroutine streams only",
-            "hashmap erase-while-iterating and rehash inside GC_sweep/GC_rehash (gc.items is an abstract finite map here; hashmap.nelua is C12's model)",
-        ],
+        "unproved": list(UNPROVED),
         "traces_validated_against_impl": int(sum(len(hists) * b[2] for b in builds)),
     }
